@@ -83,6 +83,8 @@ def judge(v, o, iface):
         return None
     if v.enotdir and enotdir:
         return None
+    if v.oserror and o['kind'] == 'exc' and o.get('class') == 'oserror':
+        return None      # an object that cannot even be stat()ed (symlink cycle): a genuine OS error is fine
     if v.conflicts and incompat:
         return None
     return viol('wrong_failure')
